@@ -68,7 +68,7 @@ fn main() {
                 "C12" => props::plan_c12(tier, seed),
                 "C07" => props::plan_c07(tier, seed),
                 "C08" => props::plan_c08(tier, seed),
-                "C01" | "C02" => props::plan_c01(tier, seed, if thorough { 6000 } else { 400 }),
+                "C01" | "C02" => props::plan_c01(tier, seed, if thorough { 40000 } else { 3000 }),
                 "C03" | "C04" | "C05" | "C06" | "C09" | "C10" | "C11" | "C13" | "C17" | "C18" => {
                     props::plan_history(prop, tier, seed, if thorough { 20000 } else { 600 })
                 }
